@@ -4,10 +4,12 @@ PROP = {
     "level": "proof",
     "modules": ["Proofs.C15Heap"],
     "streams": [{"name": "immut"}, {"name": "alias"}],
-    "rule": "immut: sequences of 2..40 operations (Render, RenderString, FRender on templates parsed once, ParseAndRender) "
+    "rule": "immut: sequences of 2..40 operations (Render, RenderString, FRender on templates parsed once, ParseAndRender; "
+            "ParseTemplateAndCache is not among them) "
             "on one engine over working sets drawn from pools of 40 generated templates x 12 environments of one schema "
             "(array-filter heavy: sort, reverse, uniq, concat, compact, map, first, last, join, sort_natural applied to "
-            "caller-owned []any, typed slices, arrays, nested slices and maps); about 40 % of the renders fail. The "
+            "caller-owned []any, typed slices, arrays, nested slices and maps); about a third of the renders fail (measured: "
+            "input_distribution immut:renders-failing / immut:renders). The "
             "environments are built once per sequence with spare slice capacity holding a sentinel; a reflect deep "
             "snapshot (slice len/cap/elements up to cap, map entries, struct fields, pointer targets, identities) is "
             "taken before and compared after each render and at the end; each result must equal the result of the same "
@@ -15,30 +17,44 @@ PROP = {
             "by itself is C02's matter and is counted, not reported). Non-trivial = a sequence with a successful render. "
             "alias: pipelines of array filters on caller-owned []any values realised as sub-slices of larger backing arrays "
             "filled with a sentinel (generation rule under C15); the oracle reports C03 bindings-modified when any location of "
-            "a caller's array, or the deep snapshot of the bindings map, differs after the evaluation.",
+            "a caller's array, or the deep snapshot of the bindings map, differs after the evaluation (also when the evaluation "
+            "fails).",
     "trusted_base": COMMON_TB,
     "assumptions": [],
 }
 
 TEXT = {
-    "text": ('History machine over engine operations (render; ParseTemplateAndCache): render_preserves_engine (a render leaves '
-              'the only engine state, the cache, unchanged), history_independent (in any history of renders, succeeding or '
-              'failing, every render returns what it returns alone), rerender_same, vars_reset (assign/capture/loop variables and '
-              'cycle counters start from the bindings in every render). Tie: every `immut` case line (a history of renders over '
+    "text": ('History machine over engine operations (Proofs/C03.lean; a render operation carries the template SOURCE and is the '
+              'pure function `run`, the only engine state is the include cache). Its statements hold by construction of that '
+              'machine and are not evidence about the code: render_preserves_engine (rfl: the render step is defined to return '
+              'the cache it was given), history_independent (in any history that consists of renders only, succeeding or '
+              'failing, every render returns what it returns alone from the same cache), rerender_same, vars_reset (rfl: the '
+              'unfolding of frender, which starts from the environment it is given and an empty trim buffer). A parsed template '
+              'as an object that could be changed, and the caller\'s bindings as memory, do not exist in this model; '
+              'ParseTemplateAndCache is an operation of the machine but occurs in no theorem and in no `immut` case. What ties '
+              'the statement to the code: every `immut` case line (a history of renders over '
               'several templates and bindings on one engine) is answered by the model and compared with the real engine op by op; '
               "on the real code the caller's bindings are deep-snapshotted (addresses, lengths, spare capacity, contents) around "
               'every render, and every render is compared with the same render on a fresh engine, confirmed by replaying the '
               'history prefix from scratch. Slices reachable from the bindings (Proofs/C15Heap.lean, on the slice-memory model '
               "Liquid/Heap.lean): array_filters_do_not_write_inputs, pipeline_no_write -- every filter application and every "
-              "pipeline of the array filters (and default) writes only into arrays it allocated itself, so the caller's backing "
-              "arrays, spare capacity included, are unchanged; convert_passes_generic_slice_through / array_results_never_alias / "
+              "pipeline of the array filters (and default) that the memory model runs to completion (result `ok`) has written "
+              "only into arrays it allocated itself, so the caller's backing "
+              "arrays, spare capacity included, are unchanged; a run that ends in an error, a panic or `unmodelled` (e.g. a sort "
+              "of more than 12 elements outside the model) returns no store in the model and nothing is stated about it; "
+              "the swaps of sort.Sort are not derived from its code but modelled as writes into the copy the filter made. "
+              "convert_passes_generic_slice_through (well-formed []any without a drop) / array_results_never_alias / "
               "default_returns_its_input_uncopied state which values share memory with the caller's; tied by the `alias` stream "
               "(real []any values with spare capacity: result, alias flag, changed locations)."),
     "design_ref": 'DESIGN.md 6 C03',
-    "note": NOTE + ("In-place modification of a caller's slice by a filter is a theorem about the slice-memory model (C15Heap). Still "
-              "carried by the snapshot oracles only: writes through maps, structs and pointers, through nested slices inside "
-              "elements, and by tags (assign/capture/for work on the render's own variable map, copied from the bindings)."),
-    "technique": ('Lean 4 proof (induction over operation histories; write-log invariant on a slice-memory model, induction over '
-              'pipelines) + model/implementation correspondence over generated histories and over slices with spare capacity + '
+    "note": NOTE + ("In-place modification of a caller's slice by a filter is a theorem about the slice-memory model (C15Heap), for "
+              "completed runs. Carried by the snapshot oracles only: writes made by a filter or pipeline that fails, "
+              "writes through maps, structs and pointers, through nested slices inside "
+              "elements (elements are immutable values in the memory model), by tags (assign/capture/for work on the render's "
+              "own variable map, copied from the bindings), any change to a parsed template or to engine state other than the "
+              "include cache, and histories that contain ParseTemplateAndCache (not generated)."),
+    "technique": ('Lean 4 proof (write-log invariant on a slice-memory model, induction over '
+              'pipelines; the history-machine statements are definitional) + model/implementation correspondence over generated '
+              'histories and over slices with spare capacity + '
               'deep-snapshot oracle on the implementation'),
 }
